@@ -165,6 +165,12 @@ func genC18Spec(rng *vkit.Rand, index int) c18Spec {
 	}
 	switch s.Profile {
 	case "baseline":
+		// every inner listing issued on behalf of GetPartIds is slow
+		var all []int
+		for i := 1; i <= 40; i++ {
+			all = append(all, i)
+		}
+		s.Stalls = append(s.Stalls, stallRule{Op: "ids", Hits: all, Where: "around", DelayMs: rg.Range(3, 12)})
 		if rg.Chance(50) {
 			s.Hooks = append(s.Hooks, hookRule{Point: "tx.commit.after-db", Every: rg.Range(2, 5), DelayMs: rg.Range(1, 3)})
 		}
@@ -317,6 +323,7 @@ type c18Run struct {
 	innerInflight atomic.Int64
 	innerPuts     atomic.Int64
 	innerDels     atomic.Int64
+	innerIds      atomic.Int64
 	hookSleeps    atomic.Int64
 	stallSleeps   atomic.Int64
 
@@ -602,6 +609,23 @@ func (s *stallStore) PutPart(ctx context.Context, tx database.Tx, partId partsto
 		}
 		return s.PartStore.PutPart(ctx, tx, partId, reader)
 	})
+}
+
+// GetPartIds: an "ids" stall rule pauses the caller before AND after the inner
+// listing, so that flush steps of the worker fall between whatever else the
+// outbox part store looks at for the same answer.
+func (s *stallStore) GetPartIds(ctx context.Context, tx database.Tx) ([]partstore.PartId, error) {
+	n := s.c.innerIds.Add(1)
+	rule := s.c.stallFor("ids", n)
+	if rule != nil {
+		s.c.stallSleeps.Add(1)
+		s.c.sleep(rule.DelayMs)
+	}
+	ids, err := s.PartStore.GetPartIds(ctx, tx)
+	if rule != nil {
+		s.c.sleep(rule.DelayMs)
+	}
+	return ids, err
 }
 
 func (s *stallStore) DeletePart(ctx context.Context, tx database.Tx, partId partstore.PartId) error {
